@@ -129,4 +129,64 @@ fn c08_zobrist_algebra() {
 //  symbolic toggles; four concrete capture geometries with symbolic kinds; a symbolic value table with a loop-free seam;
 //  288 fully concrete board pairs -- and is intractable every time (out of memory or timeout after 18-30 min): the 12 seam
 //  calls with Vec iteration cost ~1.8 M symex steps, and the XOR-sum equality over the 768-entry table is a parity problem
-//  for the SAT back end.  The Verus unit `pbv` is the only obligation on this function.)
+//  for the SAT back end.  The Verus unit `pbv` is the only unbounded obligation on this function; the concrete smoke
+//  companion at the end of this file is the only Kani obligation that is tractable.)
+
+// ===========================================================================
+// A small CONCRETE companion of verus_pbv (see the note above: nothing symbolic is tractable for this function).
+// Eight concrete capture scenarios; CBMC only propagates constants.  It keeps a semantic check with a concrete failing
+// input alive when the body of piece_board_value is restructured and the Verus unit loses its anchors.
+// ===========================================================================
+fn board_of(i1: u8, p1: Piece, i2: u8, p2: Piece, g: bool) -> PieceBoardState {
+    let w = |p: Piece| (if p1 == p { 1u64 << i1 } else { 0 }) | (if p2 == p { 1u64 << i2 } else { 0 });
+    let all = (1u64 << i1) | (1u64 << i2);
+    PieceBoardState {
+        p1_pieces: if g { all } else { 0 },
+        all_pieces: all,
+        elephants: w(Piece::Elephant),
+        camels: w(Piece::Camel),
+        horses: w(Piece::Horse),
+        dogs: w(Piece::Dog),
+        cats: w(Piece::Cat),
+        rabbits: w(Piece::Rabbit),
+    }
+}
+fn capture_case(trap: u8, supporter: u8, dest: u8, pt: Piece, ps: Piece, g: bool) {
+    // (pt,g) stands on `trap`, its only supporter (ps,g) steps from `supporter` to `dest`: the trap piece is captured
+    let old = board_of(trap, pt, supporter, ps, g);
+    let mut new = board_of(trap, pt, dest, ps, g);
+    let m = !(1u64 << trap);
+    new.p1_pieces &= m;
+    new.all_pieces &= m;
+    new.elephants &= m;
+    new.camels &= m;
+    new.horses &= m;
+    new.dogs &= m;
+    new.cats &= m;
+    new.rabbits &= m;
+    let want = pv(supporter, ps, g) ^ pv(dest, ps, g) ^ pv(trap, pt, g);
+    assert!(piece_board_value(&old, &new) == want, "C08: board delta of a capturing step == XOR of the three changed (square, kind) entries");
+    assert!(piece_board_value(&new, &old) == want, "C08: ... in either argument order");
+}
+// @obl props=C08,C05 tier=quick kind=harness-contract mem=6 est=120 timeout=1800
+// @bounded eight concrete board pairs (a capture on each trap; captured piece and departing supporter of equal and of different kinds; both colours)
+// @fns piece_board_value Zobrist::from_piece_board map_bit_board_to_squares PieceBoardState::bits_for_piece piece_value
+// @clause on these pairs piece_board_value(before, after) == value(supporter square) ^ value(destination) ^ value(trap) (real loops, real seam, real table); on one pair from_piece_board(after) == from_piece_board(before) ^ delta
+#[kani::proof]
+#[kani::unwind(8)]
+fn c08_pbv_concrete_smoke() {
+    kani::cover!(true);
+    capture_case(18, 17, 9, Piece::Horse, Piece::Horse, true); // c6: gold horse loses its horse supporter (b6 -> b7)
+    capture_case(21, 22, 23, Piece::Dog, Piece::Dog, false); // f6: silver dog, dog supporter (g6 -> h6)
+    capture_case(42, 50, 58, Piece::Cat, Piece::Elephant, false); // c3: silver cat, elephant supporter (c2 -> c1)
+    capture_case(45, 44, 36, Piece::Rabbit, Piece::Camel, false); // f3: silver rabbit, camel supporter (e3 -> e4)
+    capture_case(42, 41, 40, Piece::Cat, Piece::Cat, true); // c3: gold cats (b3 -> a3)
+    capture_case(45, 53, 61, Piece::Camel, Piece::Rabbit, true); // f3: gold camel, rabbit supporter (f2 -> f1)
+    capture_case(18, 10, 2, Piece::Rabbit, Piece::Rabbit, false); // c6: silver rabbits (c7 -> c8)
+    capture_case(21, 13, 5, Piece::Elephant, Piece::Dog, true); // f6: gold elephant, dog supporter (f7 -> f8)
+    // the from-scratch hash and the incremental delta agree on a concrete pair (same side, same step)
+    let old = board_of(42, Piece::Horse, 41, Piece::Horse, false);
+    let new = board_of(40, Piece::Horse, 40, Piece::Horse, false); // the supporter moved b3 -> a3, the c3 horse was captured
+    let d = piece_board_value(&old, &new);
+    assert!(raw(&Zobrist::from_piece_board(&new, true, 2)) == raw(&Zobrist::from_piece_board(&old, true, 2)) ^ d, "C08: from-scratch hashes of two boards differ by the incremental board delta");
+}
